@@ -18,14 +18,25 @@
 #define BLANK         V_BLANK
 
 extern "C" {
-   extern int g_remaining, g_consumed, g_calls, g_good, g_eof, g_fail;        /* stream state */
-   extern int g_sc_from, g_sc_k, g_sc_e;                       /* scratch of the models */
+   extern int g_st[9];                                        /* stream state + scratch, see contract.c */
    extern int g_i;                                           /* ghost field index of the contract */
    extern char* gp_save;                                     /* strtok's hidden state */
    extern char* gp_host; extern int* gp_lineno; extern char* gp_buf;
-   extern const char** gp_f1; extern const char** gp_f2; extern const char** gp_f3; extern const char** gp_f4; extern const char** gp_f5; extern bool* gp_isint;
+   extern const char** gp_f0; extern const char** gp_f1; extern const char** gp_f2; extern const char** gp_f3; extern const char** gp_f4; extern const char** gp_f5; extern bool* gp_isint;
    int nondet_int(void);
 }
+
+/* all int ghosts live in ONE array so that loop/function write sets have one entry for them (the cost of dfcc's
+ * per-write check grows with the number of entries) */
+#define g_remaining g_st[0]
+#define g_consumed g_st[1]
+#define g_calls g_st[2]
+#define g_good g_st[3]
+#define g_eof g_st[4]
+#define g_fail g_st[5]
+#define g_sc_from g_st[6]
+#define g_sc_k g_st[7]
+#define g_sc_e g_st[8]
 
 struct SPxOut { static void debug(const void*, const char*, ...) {} };
 
@@ -140,7 +151,7 @@ extern "C" int w_readline(int section, int lineno, int is_integer, int is_new_fo
    h.m_f0 = h.m_f1 = h.m_f2 = h.m_f3 = h.m_f4 = h.m_f5 = nullptr;
    h.m_buf[0] = '\0';
    gp_host = (char*)&h; gp_lineno = &h.m_lineno; gp_buf = h.m_buf; gp_save = nullptr;
-   gp_f1 = &h.m_f1; gp_f2 = &h.m_f2; gp_f3 = &h.m_f3; gp_f4 = &h.m_f4; gp_f5 = &h.m_f5; gp_isint = &h.m_is_integer;
+   gp_f0 = &h.m_f0; gp_f1 = &h.m_f1; gp_f2 = &h.m_f2; gp_f3 = &h.m_f3; gp_f4 = &h.m_f4; gp_f5 = &h.m_f5; gp_isint = &h.m_is_integer;
    bool r = h.body();
    off[0] = FIELD_OFF(h.m_f0); off[1] = FIELD_OFF(h.m_f1); off[2] = FIELD_OFF(h.m_f2);
    off[3] = FIELD_OFF(h.m_f3); off[4] = FIELD_OFF(h.m_f4); off[5] = FIELD_OFF(h.m_f5);
